@@ -109,6 +109,24 @@ def generate(tier, rng):
         n = rng.randint(5, 60)
         ops = [('OPEN', 'a.dat')] + [rng.choice(A2) if rng.random() < 0.8 else ('PUT', rng.choice(FILES), rng.choice(PAYLOADS)) for _ in range(n)]
         cases.append(Case(mode='repl', stdin=gen.join(history_entries(ops)), meta=dict(gen='random-2files', ops=[list(o[:2]) + ([o[2].decode('latin-1')] if len(o) > 2 and isinstance(o[2], bytes) else list(o[2:])) for o in ops], sample=False)))
+    # the same kind of history as a PROGRAM of its legal steps, ending with files still open (normally, by an error, or run
+    # through RUNFILE): the files left on disk are compared with the model
+    import copy
+    for k in range(40 if tier == 'quick' else 500):
+        spec = Spec(); legal = []
+        for op in [('OPEN', 'a.dat')] + [rng.choice(A2) if rng.random() < 0.8 else ('PUT', rng.choice(FILES), rng.choice(PAYLOADS)) for _ in range(rng.randint(3, 25))]:
+            probe = copy.deepcopy(spec)
+            if probe.apply(op)[0] != 'err':
+                spec.apply(op); legal.append(op)
+        L = ['DECLARE s : STRING', 'DECLARE t : STRING']
+        for op in legal:
+            L += [x if x != 't' else 'OUTPUT t' for x in render(op)]
+        form = rng.choice(['file', 'file-error', 'runfile'])
+        if form == 'file-error': L.append('OUTPUT 1 / 0')
+        if form == 'runfile':
+            cases.append(Case(mode='repl', stdin=b'RUNFILE seg.pseudo\nOUTPUT "back at the prompt"\n', files={'seg.pseudo': gen.join(L)}, meta=dict(gen='program-runfile', sample=False)))
+        else:
+            cases.append(Case(gen.join(L), meta=dict(gen='program-' + form, sample=False)))
     return cases
 
 def ops_of(meta):
@@ -130,14 +148,52 @@ def extra_checks(tier, rng, exe, exe_asan, mexe, stats):
     for k in range(40 if tier == 'quick' else 400):
         spec = Spec(); files = {}
         for seg in range(rng.randint(2, 4)):
+            last_seg = False
             ops = [rng.choice(A2) if rng.random() < 0.75 else ('PUT', rng.choice(FILES), rng.choice(PAYLOADS)) for _ in range(rng.randint(2, 10))]
             if seg == 0: ops = [('OPEN', 'a.dat'), ('PUT', 'a.dat', b'first\nrecord')] + ops
-            c = Case(mode='repl', stdin=gen.join(history_entries(ops)), files=files, meta=dict(gen='restart-segment'))
-            io = pe2.run_impl(c, exe)
-            n += 1
-            why = check_segment(ops, spec, io.stdout)
+            form = rng.choice(['repl', 'repl', 'file', 'file-error', 'runfile'])
+            if form == 'repl':
+                c = Case(mode='repl', stdin=gen.join(history_entries(ops)), files=files, meta=dict(gen='restart-segment'))
+                io = pe2.run_impl(c, exe)
+                n += 1
+                why = check_segment(ops, spec, io.stdout)
+            else:
+                # the same segment as a PROGRAM (file mode, or RUNFILE from the REPL) made of its legal steps only, ending with the
+                # files still open (normally or by a runtime error): what was put must be on disk for the next process
+                import copy
+                legal = []
+                for op in ops:
+                    probe = copy.deepcopy(spec)
+                    if probe.apply(op)[0] != 'err':
+                        spec.apply(op); legal.append(op)
+                # always leave at least one modified file open at the end
+                f0 = rng.choice(FILES)
+                for op in ([('OPEN', f0)] if f0 not in spec.open else []) + [('PUT', f0, rng.choice(PAYLOADS))]:
+                    spec.apply(op); legal.append(op)
+                L = ['DECLARE s : STRING', 'DECLARE t : STRING']
+                for op in legal:
+                    L += [x if x != 't' else 'OUTPUT t' for x in render(op)]
+                if form == 'file-error': L.append('OUTPUT 1 / 0')
+                if form == 'runfile':
+                    c = Case(mode='repl', stdin=b'RUNFILE seg.pseudo\n', files=dict(files, **{'seg.pseudo': gen.join(L)}), meta=dict(gen='restart-segment-runfile'))
+                else:
+                    c = Case(gen.join(L), files=files, meta=dict(gen='restart-segment-' + form))
+                io = pe2.run_impl(c, exe)
+                n += 1
+                want_exit = 1 if form == 'file-error' else 0
+                why = None if io.exit == want_exit else 'a program of legal steps ended with status %s: %r' % (io.exit, io.raw_stderr[:160])
             if why:
                 yield ('after a process restart: ' + why, c, io); break
             spec.apply(('RESTART', None))
             files = {f: io.files[f] for f in FILES if f in io.files}
+        else:
+            # a final process reads every record of both files back
+            ops = []
+            for f in FILES:
+                ops += [('OPEN', f)] + [x for k in range(1, len(spec.disk[f]) + 1) for x in (('SEEK', f, k), ('GET', f))] + [('SEEK', f, len(spec.disk[f]) + 1), ('GET', f), ('SEEK', f, len(spec.disk[f]) + 2)]
+            c = Case(mode='repl', stdin=gen.join(history_entries(ops)), files=files, meta=dict(gen='restart-final-read'))
+            io = pe2.run_impl(c, exe); n += 1
+            why = check_segment(ops, spec, io.stdout)
+            if why:
+                yield ('after the last process restart: ' + why, c, io)
     stats.setdefault('extra', {})['restart_segments'] = n
